@@ -141,6 +141,7 @@ class Scenario(object):
         ops.append(['reorder', 'reverse'])
         ops.append(['reorder', 'same'])
         ops.append(['reorder', 'invalid'])
+        ops.append(['reorder', 'dup'])
         if 'z' in keys and w.rec('z')['label'] == 'z':
             ops.append(['rename', 'z', 'zz'])
         if 'y' in keys and 'ynew' not in keys:
@@ -250,6 +251,14 @@ class Scenario(object):
                         w.expected.append(['DataReorderComponentMessage', None])
                 elif op[1] == 'same':
                     d.reorder_components(list(comps))
+                elif op[1] == 'dup':
+                    # right length, only ids of this dataset, but one of them twice (another one left out)
+                    try:
+                        d.reorder_components(list(comps[1:]) + [comps[1]])
+                        w.violations.append(('invalid-accepted', 'reorder_components with a repeated id succeeded',
+                                             'ValueError'))
+                    except ValueError:
+                        pass
                 else:
                     try:
                         d.reorder_components(comps[:-1])
